@@ -325,6 +325,11 @@ class Normalizer:
                         return h, None
                     if "classmethod" in decos:
                         return h, f.value
+        # a new method of the model class (another module), called as ``<reference>._model.<name>(...)``
+        if isinstance(f, ast.Attribute) and f.attr in self.foreign and isinstance(f.value, ast.Attribute) and f.value.attr == "_model" \
+                and f.attr not in self._all_pinned_method_names() \
+                and all(isinstance(x, (ast.Name, ast.Attribute, ast.Load)) for x in ast.walk(f.value)):
+            return self.foreign[f.attr], f.value
         # a new method of another class of this module, called on a plain reference (``self._x[k].helper(...)``): bound
         # by its name when that name is defined once in the module and exists nowhere in the pinned vocabulary
         if isinstance(f, ast.Attribute) and not (isinstance(f.value, ast.Name) and f.value.id in ("self", "cls")):
@@ -895,7 +900,7 @@ class Normalizer:
             self._fold_constants(n)
             if n.name != "<lambda>" and _qual(n, self.par) in self.pinned_funcs:
                 self._unroll_table_loops(n, set(self.pinned_funcs.get(_qual(n, self.par), [])))
-            if self.helpers:
+            if self.helpers or self.foreign:
                 taken = _local_names(n)
                 n.body = self._inline_stmt_calls(n.body, cls_name, taken)
                 for i, b in enumerate(n.body):
@@ -938,7 +943,19 @@ def new_module_constants(tree, rel, base_env):
 _NO = object()
 
 
-def normalize_module(rel, tree, base_env, imported_new=None):
+def new_methods(tree, rel, cls_name):
+    """name -> FunctionDef of the methods of ``cls_name`` that are not in the pinned vocabulary (fresh copies)."""
+    pinned = _pinned_functions(rel)
+    out = {}
+    for n in tree.body:
+        if isinstance(n, ast.ClassDef) and n.name == cls_name:
+            for m in n.body:
+                if isinstance(m, ast.FunctionDef) and f"{cls_name}.{m.name}" not in pinned and not m.decorator_list:
+                    out[m.name] = ast.parse(ast.unparse(m)).body[0]
+    return out
+
+
+def normalize_module(rel, tree, base_env, imported_new=None, foreign=None):
     """Return (normalised copy of the module tree, report)."""
     # work on a fresh parse: the shared raw tree carries parent links that must not be dragged into copies
     t = ast.parse(tree) if isinstance(tree, str) else ast.parse(ast.unparse(tree))
@@ -951,6 +968,6 @@ def normalize_module(rel, tree, base_env, imported_new=None):
                     nm = a.asname or a.name
                     if a.name in imported_new and nm not in _pinned_module(rel):
                         env[nm] = imported_new[a.name]
-    nz = Normalizer(rel, t, env)
+    nz = Normalizer(rel, t, env, foreign)
     nz.run()
     return t, nz.report
